@@ -313,6 +313,15 @@ class LoopMachine(Machine):
         live_before = set(oid for oid, o in h.objs.items() if o.heap and o.live)
         cont, brk, ret, exitf = self.one_iteration(h, cond, inc, body, cond_first)
         iter_traces = set()
+        keep = getattr(self, 'keep_iter_states', False)
+        snap_states = []
+        if keep:
+            for s2 in cont:
+                snap_states.append(('continue', s2.trace, s2.fork()))
+            for s2 in brk:
+                snap_states.append(('break', s2.trace, s2.fork()))
+            for s2, _c in ret:
+                snap_states.append(('return', s2.trace, s2.fork()))
         for s2 in cont:
             iter_traces.add(s2.trace)
             leaked = [oid for oid, o in s2.objs.items() if o.heap and o.live and oid not in live_before
@@ -338,7 +347,9 @@ class LoopMachine(Machine):
         if info is not None:
             info[lid] = {'induction': {('%s%s' % (oid, key[1])): st_ for (oid, key), st_ in induct.items()},
                          'modified': sorted('%s+%s' % (oid, key[1]) for (oid, key) in mods),
-                         'smashed': sorted(smashed), 'iter_traces': len(iter_traces), 'node': s}
+                         'smashed': sorted(smashed), 'iter_traces': len(iter_traces), 'node': s,
+                         'iter_states': snap_states if keep else None,
+                         'exit_states': len(exitf)}
         return outs
 
     havoc_atoms = {}
